@@ -106,9 +106,25 @@ type libScenario struct {
 }
 
 type c13Scenario struct {
-	Kind string       `json:"kind"` // lib | cli
-	Lib  *libScenario `json:"lib,omitempty"`
-	Cli  *cliScenario `json:"cli,omitempty"`
+	Kind string        `json:"kind"` // lib | cli | conc
+	Lib  *libScenario  `json:"lib,omitempty"`
+	Cli  *cliScenario  `json:"cli,omitempty"`
+	Conc *concScenario `json:"conc,omitempty"`
+}
+
+func hasDiscard(f *cache.File) bool {
+	_, ok := interface{}(f).(interface{ Discard() error })
+	return ok
+}
+
+// discard gives a cache file up without finalising it, the way the CLI does
+// for a run that failed (older trees have no Discard and close the file).
+func discard(f *cache.File) {
+	if d, ok := interface{}(f).(interface{ Discard() error }); ok {
+		d.Discard()
+		return
+	}
+	f.Close()
 }
 
 func newHashByName(n string) hash.Hash {
@@ -213,10 +229,11 @@ func (r *libRun) put(op libOp, fault *simos.Fault, pl *simos.PowerLoss) (acked, 
 	return r.putFaults(op, fs, pl)
 }
 
-// putFaults runs the create/write/close protocol the way the CLI drives it:
-// an entry whose creation failed is unlinked at once (and still written to),
-// a failed write aborts the run, an aborted run unlinks the entry before
-// closing it, a failed Close unlinks it afterwards.
+// putFaults runs the create/write/close protocol the way the CLI drives it
+// (cmd/gts/io.go): an entry that cannot be created is not used, a failed
+// write gives the entry up, a run that failed discards it, a run that
+// succeeded finalises it. A tree whose cache.File has no Discard is driven
+// the way the CLI of that time did: unlink the name, then close.
 func (r *libRun) putFaults(op libOp, faults []simos.Fault, pl *simos.PowerLoss) (acked, killed bool, pnc string, p *simos.Proc) {
 	core.Tick()
 	k := r.keys[op.Key]
@@ -243,7 +260,7 @@ func (r *libRun) putFaults(op libOp, faults []simos.Fault, pl *simos.PowerLoss) 
 			return
 		}
 		ok := err == nil
-		if err != nil {
+		if err != nil && !hasDiscard(f) {
 			simos.Remove(f.Name())
 		}
 		rest := body
@@ -264,12 +281,16 @@ func (r *libRun) putFaults(op libOp, faults []simos.Fault, pl *simos.PowerLoss) 
 			rest = rest[n:]
 		}
 		if !ok {
-			simos.Remove(f.Name())
-			f.Close()
+			if !hasDiscard(f) {
+				simos.Remove(f.Name())
+			}
+			discard(f)
 			return
 		}
 		if err := f.Close(); err != nil {
-			simos.Remove(f.Name())
+			if !hasDiscard(f) {
+				simos.Remove(f.Name())
+			}
 			return
 		}
 		acked = true
@@ -495,4 +516,20 @@ func derive(pre []byte, preOK bool, log []simos.WriteRec, n, torn int) []byte {
 		apply(log[n], torn)
 	}
 	return img
+}
+
+// removeStrays deletes what killed writers left beside the entries: files in
+// the cache directory that are not the entry of a key of this scenario.
+func (r *libRun) removeStrays(keep string) {
+	for _, p := range r.w.List(libCacheDir) {
+		stray := true
+		for _, k := range r.paths {
+			if p == k {
+				stray = false
+			}
+		}
+		if stray {
+			r.w.DeleteFile(p)
+		}
+	}
 }
